@@ -309,6 +309,11 @@ partial def loop (h : IO.FS.Stream) (s : St) : IO Unit := do
         k := k + 1
       let s' ← doLabel { s with w := w, labels := s.labels + (k - 1) } l raw
       loop h s'
+    | ["budgetExhausted"] =>
+      -- the real run never came to rest: the harness stopped it after its budget of loop iterations (the history up to there
+      -- has been followed; what it shows has been reported above)
+      IO.println s!"REJ {s.sc} {s.line} rest: the real system never comes to rest (loop-iteration budget exhausted while virtual time stands still or work never ends) || budget"
+      loop h { s with rejected := true, diverged := true }
     | ["rest"] =>
       if isRest s.w then
         printVios (if s.diverged then s.sc ++ "~" else s.sc) s.line (s.m.rest s.w)
